@@ -126,3 +126,27 @@ where
         ColMatrix::new(cols)
     }
 }
+
+
+/// Runs `Prover::prove` to completion in every build (the async build polls the future on the spot).
+pub fn prove_sync<X: HS>(prover: &GenProver<X>, trace: GenTrace<X::S>) -> Result<winter_air::proof::Proof, winter_prover::ProverError>
+where
+    X::H: Send + Sync,
+{
+    #[cfg(feature = "async")]
+    {
+        use std::future::Future;
+        let mut f = std::pin::pin!(prover.prove(trace));
+        let waker = std::task::Waker::noop();
+        let mut cx = std::task::Context::from_waker(waker);
+        loop {
+            if let std::task::Poll::Ready(v) = f.as_mut().poll(&mut cx) {
+                return v;
+            }
+        }
+    }
+    #[cfg(not(feature = "async"))]
+    {
+        prover.prove(trace)
+    }
+}
